@@ -1,5 +1,6 @@
 //%unit tsig_kernels
 //%features std __dnssec dnssec-ring
+//%dropawait
 use vstd::prelude::*;
 use core::ops::Range;
 verus! {
@@ -167,6 +168,58 @@ impl SqliteZoneHandler {
             r.1 matches TSigResponseContext::Signed { signer, error, .. } ==> mac_ok(signer, request.raw@) && (r.0 is Ok <==> error is None),
             // every reply carries the request id
             match r.1 { TSigResponseContext::UnknownKey { id, .. } => id == request.id, TSigResponseContext::BadSignature { id, .. } => id == request.id, TSigResponseContext::Signed { id, .. } => id == request.id },
+//%end
+}
+
+// ---- the order of SqliteZoneHandler's `ZoneHandler::update` (an async fn; `.await` dropped, R-await): NOTHING of the
+//      request is evaluated against the zone -- not the prerequisites, not the prescan, not the update section -- unless
+//      the request was authorised first.  (C13: "every unsigned, wrongly keyed, bit-flipped, MAC-truncated or stale
+//      request leaves the zone unchanged and returns no zone data": a prerequisite verdict is zone data.) ----
+pub struct VpUpdRequest { pub id: u64 }
+pub struct VpSection { pub req: u64, pub which: u8 }
+impl VpUpdRequest {
+    pub fn prerequisites(&self) -> (r: VpSection) ensures r.req == self.id, r.which == 1 { VpSection { req: self.id, which: 1 } }
+    pub fn updates(&self) -> (r: VpSection) ensures r.req == self.id, r.which == 2 { VpSection { req: self.id, which: 2 } }
+}
+pub struct VpCtx { pub vp: u64 }
+pub uninterp spec fn auth_ok(h: u64, req: u64, now: u64) -> bool;
+pub uninterp spec fn prereq_ok(h: u64, req: u64) -> bool;
+pub uninterp spec fn prescan_passes(h: u64, req: u64) -> bool;
+pub uninterp spec fn apply_result(h: u64, req: u64) -> Result<bool, ResponseCode>;
+pub struct VpSqliteHandler { pub vp: u64 }
+impl VpSqliteHandler {
+    #[verifier::external_body]
+    pub fn authorize_update(&self, request: &VpUpdRequest, now: u64) -> (r: (Result<(), ResponseCode>, Option<VpCtx>))
+        ensures r.0 is Ok == auth_ok(self.vp, request.id, now)
+    { unimplemented!() }
+    // the three steps that look at (or change) the zone may only run for an authorised request
+    #[verifier::external_body]
+    pub fn verify_prerequisites(&self, p: VpSection) -> (r: Result<(), ResponseCode>)
+        requires exists|now: u64| #[trigger] auth_ok(self.vp, p.req, now)
+        ensures r is Ok == prereq_ok(self.vp, p.req)
+    { unimplemented!() }
+    #[verifier::external_body]
+    pub fn pre_scan(&self, p: VpSection) -> (r: Result<(), ResponseCode>)
+        requires exists|now: u64| #[trigger] auth_ok(self.vp, p.req, now)
+        ensures r is Ok == prescan_passes(self.vp, p.req)
+    { unimplemented!() }
+    #[verifier::external_body]
+    pub fn update_records(&self, p: VpSection, auto: bool) -> (r: Result<bool, ResponseCode>)
+        requires (exists|now: u64| #[trigger] auth_ok(self.vp, p.req, now)), prereq_ok(self.vp, p.req), prescan_passes(self.vp, p.req)
+        ensures r == apply_result(self.vp, p.req)
+    { unimplemented!() }
+//%fn crates/server/src/store/sqlite/mod.rs :: impl<P: RuntimeProvider + Send + Sync> ZoneHandler for SqliteZoneHandler<P> :: update
+//%sub1 "async fn" => "fn" # R-await
+//%sub1 "_request: &Request" => "_request: &VpUpdRequest" # stand-in request (only its identity and its two sections matter here)
+//%sub1 "Option<TSigResponseContext>" => "Option<VpCtx>" # stand-in
+//%mutant prerequisites_before_authorisation "(Err(e), signer) => return (Err(e), signer)," => "(Err(e), signer) => { let _x = self.verify_prerequisites(_request.prerequisites()); return (Err(e), signer) }"
+//%mutant prescan_result_ignored "if let Err(code) = self.pre_scan(_request.updates()).await { return (Err(code), signer); }" => "let _y = self.pre_scan(_request.updates());"
+//%contract
+        ensures
+            // the update section is applied only for an authorised request whose prerequisites and prescan succeeded
+            r.0 is Ok ==> auth_ok(self.vp, _request.id, _now) && prereq_ok(self.vp, _request.id) && prescan_passes(self.vp, _request.id)
+                && r.0 == apply_result(self.vp, _request.id),
+            !auth_ok(self.vp, _request.id, _now) ==> r.0 is Err,
 //%end
 }
 
